@@ -5,7 +5,7 @@
 using namespace vf;
 using namespace pr;
 
-struct WorldSpec { const PSet *ps; int vkind; const char *tag; };
+struct WorldSpec { const PSet *ps; int vkind; const char *tag; int loose = 0; };
 
 int main(int argc, char **argv) {
 	init(argc, argv);
@@ -13,6 +13,8 @@ int main(int argc, char **argv) {
 	if (!init_libTMCG()) return 2;
 	bool quick = ctx.quick();
 	std::vector<WorldSpec> worlds = {{&PS_S, 0, "S/random-g"}, {&PS_S, 1, "S/canonical-g"}, {&PS_S, 2, "S/groupQR"}, {&PS_G, 0, "G/random-g"}};
+	// importing instances that declare smaller (still admissible) sizes than the group really has: once the verifier side, once the prover side
+	worlds.push_back({&PS_L, 0, "L/verifier-declares-less", 1}); worlds.push_back({&PS_L, 1, "L/prover-declares-less", 2});
 	if (!quick) { worlds.push_back({&PS_G, 1, "G/canonical-g"}); worlds.push_back({&PS_D, 0, "D/random-g"}); }
 	std::vector<size_t> sizes = quick ? std::vector<size_t>{2, 3, 4, 8} : std::vector<size_t>{2, 3, 4, 5, 7, 8, 16, 52};
 	std::vector<size_t> qr_sizes = quick ? std::vector<size_t>{2, 3} : std::vector<size_t>{2, 3, 4, 8};
@@ -29,7 +31,7 @@ int main(int argc, char **argv) {
 		std::string desc = std::string(worlds[wi].tag) + " " + f.name;
 		if (!case_begin(k++, desc)) continue;
 		World *&W = wcache[(int)wi];
-		if (!W) W = new World(*worlds[wi].ps, worlds[wi].vkind, ctx.seed);
+		if (!W) W = new World(*worlds[wi].ps, worlds[wi].vkind, ctx.seed, worlds[wi].loose);
 		if (isD) W->rabin_bits = 1024;
 		Rng rg = case_rng(k, 3); tl_rng = &rg;
 		std::vector<size_t> ns = f.sized ? (f.family == "qr" ? qr_sizes : sizes) : std::vector<size_t>{0};
